@@ -36,6 +36,19 @@ class KernelSummary:
         self.loops = []
         self.stores = []
         self.env = {}
+        self.ret = None
+        self.params = ()
+
+    def canon(self, array):
+        """name-independent identity of a stored-into array: a parameter keeps its (API) name, a local is numbered by the order in which
+        locals are first stored into"""
+        if array in self.params:
+            return array
+        order = []
+        for s in self.stores:
+            if s.array not in self.params and s.array not in order:
+                order.append(s.array)
+        return "local#%d" % order.index(array) if array in order else array
 
 
 def summarize(model, func, env=None, call_hook=None, stmts=None):
@@ -91,4 +104,6 @@ def summarize(model, func, env=None, call_hook=None, stmts=None):
     st = State(dict(env or {}))
     outs = vn.run(stmts if stmts is not None else func.body, st)
     ks.env = outs[0].env if outs else {}
+    ks.ret = outs[0].ret if outs and outs[0].status == "return" else None
+    ks.params = tuple(func.params) if stmts is None else tuple(func.params)
     return ks
